@@ -65,5 +65,6 @@ Expected(entry, v) ==
       [] OTHER -> v     \* file name, tree name, declared default, captured variable
 
 (* entry points that put the value inside a lambda: anything not transportable is refused *)
-InLambda(entry) == entry \in {"default", "captured", "captured_global", "captured_modattr", "captured_clsattr"}
+InLambda(entry) == entry \in {"default", "captured", "captured_global", "captured_modattr", "captured_clsattr",
+                              "captured_strenum", "captured_intenum"}
 =============================================================================
